@@ -533,7 +533,7 @@ def main(argv):
         "wall_s": round(time.time() - run.t0, 2),
         "violations": len(violations),
     }
-    evdir = os.path.join(OUT, "alt-evidence") if common.ALT else EVID
+    evdir = os.path.join(OUT, "alt-evidence") if (common.ALT or args.no_build) else EVID   # development runs never touch evidence/
     os.makedirs(evdir, exist_ok=True)
     with open(os.path.join(evdir, pid + ".json"), "w") as f:
         json.dump(ev, f, indent=1)
